@@ -293,7 +293,10 @@ class ConfusionMatrix:
             Vectorized binary confusion matrix of shape (..., N, 2, 2).
         """
         dims = self.matrix.shape[:-2]  # Extra dimensions
-        matrix = np.zeros((*dims, self.nb_classes, 2, 2), dtype=self.matrix.dtype)
+        # The entries are sums over rows/columns: use the dtype NumPy sums in, which is
+        # wider than that of a matrix stored in a small integer type.
+        dtype = np.sum(self.matrix, axis=(-1, -2)).dtype
+        matrix = np.zeros((*dims, self.nb_classes, 2, 2), dtype=dtype)
         for j in range(self.nb_classes):
             matrix[..., j, 0, 0] = self.matrix[..., j, j]
             matrix[..., j, 0, 1] = (
